@@ -31,6 +31,7 @@ def make_world(kind):
 
     if kind == "slc":
         dev = c18.new_table(0)
+        dev.make_directory(200)
         t = enip.Target(dev, keep_cip=False, keep_seqs=True)
         w = net.World(t, io_budget=10**10)
         w.__enter__()
@@ -55,7 +56,24 @@ def operations(d, kind, t=None):
     if kind == "cip":
         return {"generic": lambda: d.generic_message(service=0x0E, class_code=0x99, instance=1, attribute=1)}
     if kind == "slc":
-        return {"slc_read": lambda: d.read("N7:3"), "slc_write": lambda: d.write(("N7:3", 5))}
+        dev = t.device if t is not None else None
+
+        def quiet(f):
+            # the library prints a summary of the directory to stdout
+            import contextlib
+            import io
+
+            with contextlib.redirect_stdout(io.StringIO()):
+                return f()
+
+        def datalog(n):
+            dev.datalog[2] = [b"rec%02d,1,2,3" % i for i in range(n + 1)]
+            return d.get_datalog_queue(n, 2)
+        return {"slc_read": lambda: d.read("N7:3"), "slc_write": lambda: d.write(("N7:3", 5)),
+                # the file directory (system file 0) is read in chunks of 0x50 bytes: 200 bytes = three chunks after the type and size requests
+                "slc_filedir": lambda: quiet(d.get_file_directory), "slc_proctype": lambda: d.get_processor_type(),
+                # n records and the queue-clearing read behind them
+                "slc_datalog1": lambda: datalog(1), "slc_datalog4": lambda: datalog(4)}
     big = [(i * 7) % 3000 for i in range(2100)]
     many = ["plain", "plain2", "padded1", "str1", "s20", "plain3", "bools1.b1", "arrs1.sa{5}", "inner1.x", "timer1", "hid1", "mid1.count"] * 6
     return {
@@ -88,8 +106,8 @@ def stutter(t, d, at):
         ctl.empty_frag_at = ()
 
 
-KIND_OF = {"generic": "cip", "slc_read": "slc", "slc_write": "slc"}
-ALL_OPS = ["generic", "read1", "read2", "readmany", "readfrag", "readfrag2", "readfrag_stutter1", "readfrag_stutter2", "write1", "write2", "writefrag", "writefrag2", "bitwrite", "bitmerge", "upload", "redundant_open", "slc_read", "slc_write"]
+KIND_OF = {"generic": "cip", "slc_read": "slc", "slc_write": "slc", "slc_filedir": "slc", "slc_proctype": "slc", "slc_datalog1": "slc", "slc_datalog4": "slc"}
+ALL_OPS = ["generic", "read1", "read2", "readmany", "readfrag", "readfrag2", "readfrag_stutter1", "readfrag_stutter2", "write1", "write2", "writefrag", "writefrag2", "bitwrite", "bitmerge", "upload", "redundant_open", "slc_read", "slc_write", "slc_filedir", "slc_proctype", "slc_datalog1", "slc_datalog4"]
 
 
 def conn_of(t):
